@@ -159,9 +159,10 @@ def rule_K(ck, lib, pfx):
                     pc = c[2]
                 if t[0] == "bin" and t[1] == "Eq" and t[2] == Pterm and t[3] == ("lit", "int", 0):
                     pc = not c[2]
-                if t[0] == "bin" and t[1] == "Ge" and t[3][0] == "call" and t[3][1].endswith("::len"):
+                is_cap = (t[0] == "bin" and ((t[3][0] == "call" and t[3][1].endswith("::len")) or t[3][0] == "constparam"))
+                if is_cap and t[1] == "Ge":
                     full = (c[2], lin(t[2]))
-                if t[0] == "bin" and t[1] == "Lt" and t[3][0] == "call" and t[3][1].endswith("::len"):
+                if is_cap and t[1] == "Lt":
                     full = (not c[2], lin(t[2]))
             LP = Lin({Pterm: 1})
             if pc is False:
